@@ -24,6 +24,7 @@ type connPool struct {
 	active      int
 	mu          sync.Mutex
 	idleTimeout time.Duration
+	closed      bool // set by Shutdown: the pool has been emptied and dropped from the map
 }
 
 // pooledConn wraps a connection with metadata
@@ -99,6 +100,13 @@ func (p *WebSocketPool) Put(backend string, conn net.Conn) bool {
 
 	pool.mu.Lock()
 	defer pool.mu.Unlock()
+
+	// Shutdown may have emptied and dropped this pool since it was looked up: nobody would ever
+	// close what is put into it now.
+	if pool.closed {
+		_ = conn.Close()
+		return false
+	}
 
 	if pool.active > 0 {
 		pool.active--
@@ -235,6 +243,7 @@ func (p *WebSocketPool) Shutdown() {
 			_ = pc.conn.Close() // Best effort close, ignore error
 		}
 		pool.idle = nil
+		pool.closed = true
 		pool.mu.Unlock()
 
 		logging.L().Info().
